@@ -50,11 +50,13 @@ def run(prog, res):
   for q in ('lattice_lib.laplacian_regularizer', 'lattice_lib.torsion_regularizer'):
     seqkind.check_function(prog, res, prog.function(q))
   res.floor('T3', 6)
+  _amount_semantics(prog, res)
   _lattice_laplacian(prog, res)
   _lattice_torsion(prog, res)
   for cls, k in (('LaplacianRegularizer', 1), ('HessianRegularizer', 2),
                  ('WrinkleRegularizer', 3)):
     _pwl(prog, res, cls, k)
+  _pwl_size_guards(prog, res)
   _layer_forwarding(prog, res)
   res.floor('L6', 35)
 
@@ -410,3 +412,326 @@ def _layer_forwarding(prog, res):
               '%s(x, lattice_sizes, l1, l2)' % lib,
               '%s.__call__ does not call %s(x, self.lattice_sizes, self.l1, '
               'self.l2)' % (cls_name, lib))
+
+
+# ---------------------------------------------------------------------------
+class _Op(object):
+  """opaque tensor value; kind 'abs' / 'square' once reduced to a norm"""
+
+  def __init__(self, kind=None, coef=1.0):
+    self.kind, self.coef = kind, coef
+
+  def _bin(self, o, op):
+    if isinstance(o, (int, float)) and self.kind and op == '*':
+      return _Op(self.kind, self.coef * o)
+    return _Op()
+  __add__ = __radd__ = __sub__ = __rsub__ = lambda s, o: s._bin(o, '+')
+  __mul__ = __rmul__ = lambda s, o: s._bin(o, '*')
+  __truediv__ = lambda s, o: s._bin(o, '/')
+  __neg__ = lambda s: _Op()
+
+  def __getitem__(self, k):
+    return _Op()
+
+
+class _Skip(Exception):
+  pass
+
+
+def _run_amounts(prog, fn, cfg):
+  """Executes a lattice regularizer on concrete amounts / sizes / unit count
+  with tensors opaque; returns [(kind, loop indices, coefficient)]."""
+  import math
+  env = {'lattice_sizes': list(cfg['sizes']), 'l1': cfg['l1'], 'l2': cfg['l2'],
+         'weights': _Op(), 'math': math}
+  terms = []
+  units = cfg['units']
+
+  def ev(e):
+    if isinstance(e, ast.Constant):
+      return e.value
+    if isinstance(e, ast.Name):
+      if e.id in env:
+        return env[e.id]
+      if e.id in ('list', 'tuple', 'int', 'float', 'len', 'range'):
+        return {'list': list, 'tuple': tuple, 'int': int, 'float': float,
+                'len': len, 'range': range}[e.id]
+      raise AnalysisError('%s: name %s in a regularizer prologue' % (
+          fn.loc(e), e.id))
+    if isinstance(e, ast.Attribute):
+      t = norm_text(e)
+      if t == 'weights.shape':
+        return (None, units)
+      if t.startswith('weights.'):
+        return _Op()
+      if t == 'math.sqrt':
+        return math.sqrt
+      return _Op()
+    if isinstance(e, ast.Subscript):
+      v = ev(e.value)
+      if isinstance(e.slice, ast.Slice):
+        if isinstance(v, _Op):
+          return _Op()
+        lo = ev(e.slice.lower) if e.slice.lower is not None else None
+        hi = ev(e.slice.upper) if e.slice.upper is not None else None
+        return v[lo:hi]
+      if isinstance(e.slice, ast.Tuple):
+        return _Op()
+      k = ev(e.slice)
+      if isinstance(v, _Op):
+        return _Op()
+      return v[k]
+    if isinstance(e, (ast.List, ast.Tuple)):
+      vals = [ev(x) for x in e.elts]
+      return vals if isinstance(e, ast.List) else tuple(vals)
+    if isinstance(e, ast.ListComp):
+      return _Op()
+    if isinstance(e, ast.UnaryOp):
+      v = ev(e.operand)
+      if isinstance(e.op, ast.Not):
+        return not v
+      if isinstance(e.op, ast.USub):
+        return -v
+    if isinstance(e, ast.BoolOp):
+      r = None
+      for x in e.values:
+        r = ev(x)
+        if isinstance(e.op, ast.And) and not r:
+          return r
+        if isinstance(e.op, ast.Or) and r:
+          return r
+      return r
+    if isinstance(e, ast.Compare) and len(e.ops) == 1:
+      a, b = ev(e.left), ev(e.comparators[0])
+      op = e.ops[0]
+      return {ast.Eq: lambda: a == b, ast.NotEq: lambda: a != b,
+              ast.Lt: lambda: a < b, ast.LtE: lambda: a <= b,
+              ast.Gt: lambda: a > b, ast.GtE: lambda: a >= b,
+              ast.Is: lambda: a is b, ast.IsNot: lambda: a is not b}[
+                  type(op)]()
+    if isinstance(e, ast.BinOp):
+      a, b = ev(e.left), ev(e.right)
+      if isinstance(e.op, ast.Add):
+        return a + b
+      if isinstance(e.op, ast.Sub):
+        return a - b
+      if isinstance(e.op, ast.Mult):
+        return a * b
+      if isinstance(e.op, ast.Div):
+        return a / b
+    if isinstance(e, ast.Call):
+      ext = prog.ext_name(fn.module, e.func) or ''
+      if ext.startswith(('tf.', 'np.')):
+        op = ext.split('.')[-1]
+        args = [ev(a) for a in e.args]
+        if op in ('abs', 'square'):
+          return _Op(op)
+        if op == 'reduce_sum' and args and isinstance(args[0], _Op):
+          return _Op(args[0].kind)
+        return _Op()
+      f = dotted(e.func)
+      if f == 'isinstance':
+        v = ev(e.args[0])
+        kinds = e.args[1].elts if isinstance(e.args[1], ast.Tuple) else [
+            e.args[1]]
+        return isinstance(v, tuple(ev(k) for k in kinds))
+      fv = ev(e.func)
+      if callable(fv):
+        return fv(*[ev(a) for a in e.args])
+    raise AnalysisError('%s: expression `%s` in a regularizer is outside the '
+                        'evaluated subset' % (fn.loc(e), norm_text(e)[:50]))
+
+  class _Ret(Exception):
+    pass
+
+  def ex(stmts, loopvars):
+    for st in stmts:
+      if isinstance(st, ast.Expr):
+        continue
+      if isinstance(st, ast.Assign):
+        v = ev(st.value)
+        t = st.targets[0]
+        if isinstance(t, ast.Name):
+          env[t.id] = v
+        elif isinstance(t, ast.Tuple) and all(isinstance(x, ast.Name)
+                                              for x in t.elts):
+          if isinstance(v, (list, tuple)) and len(v) == len(t.elts):
+            for x, y in zip(t.elts, v):
+              env[x.id] = y
+          else:
+            for x in t.elts:
+              env[x.id] = _Op()
+        elif isinstance(t, ast.Subscript) or (
+            isinstance(t, ast.Tuple) and all(isinstance(x, ast.Subscript)
+                                             for x in t.elts)):
+          pass                      # permut[0] = ... : index bookkeeping
+        else:
+          raise AnalysisError('%s: assignment target' % fn.loc(st))
+        continue
+      if isinstance(st, ast.AugAssign):
+        v = ev(st.value)
+        if isinstance(st.target, ast.Name):
+          nm = st.target.id
+          cur = env.get(nm)
+          if nm == 'result' and isinstance(v, _Op):
+            if not v.kind:
+              raise AnalysisError('%s: a term that is not amount * norm is '
+                                  'added to the result' % fn.loc(st))
+            terms.append((v.kind, tuple(env[x] for x in loopvars), v.coef))
+          elif isinstance(cur, (int, float)) and isinstance(v, (int, float)):
+            env[nm] = cur + v if isinstance(st.op, ast.Add) else cur - v
+          else:
+            env[nm] = _Op()
+        continue
+      if isinstance(st, ast.If):
+        ex(st.body if ev(st.test) else st.orelse, loopvars)
+        continue
+      if isinstance(st, ast.For):
+        it = ev(st.iter)
+        if not isinstance(st.target, ast.Name):
+          raise AnalysisError('%s: loop target' % fn.loc(st))
+        for k in it:
+          env[st.target.id] = k
+          try:
+            ex(st.body, loopvars + [st.target.id])
+          except _Skip:
+            pass
+        continue
+      if isinstance(st, ast.Continue):
+        raise _Skip()
+      if isinstance(st, ast.Return):
+        raise _Ret()
+      raise AnalysisError('%s: statement %s' % (fn.loc(st),
+                                                type(st).__name__))
+  try:
+    ex(fn.node.body, [])
+  except _Ret:
+    pass
+  return terms
+
+
+def _amount_semantics(prog, res):
+  """L6a: amounts, skip guards and the zero-weighted units axis of the lattice
+  regularizers, decided by evaluating the function (tensors opaque) on a grid
+  of configurations - amounts absent / scalar / per-dimension list or tuple
+  with zeros, units 1 and 2 - and comparing the multiset of
+  (norm kind, dimension(s), coefficient) terms with the documented sums."""
+  import math
+  sizes = [3, 2, 4]
+  amounts = [None, 0.5, [0.3, 0.0, 0.2], [0.0, 0.7, 0.0], (0.2, 0.4, 0.0)]
+
+  def eff(a, d, torsion):
+    if a is None or a == 0:
+      return 0.0
+    if isinstance(a, (list, tuple)):
+      return float(a[d])
+    return math.sqrt(a) if torsion else float(a)
+  for name, torsion in (('laplacian_regularizer', False),
+                        ('torsion_regularizer', True)):
+    fn = prog.function('%s.%s' % (LL, name))
+    res.analysed(fn)
+    bad = None
+    n = 0
+    for units in (1, 2):
+      for l1 in amounts:
+        for l2 in amounts:
+          cfg = dict(sizes=sizes, l1=l1, l2=l2, units=units)
+          got = {}
+          try:
+            run_terms = _run_amounts(prog, fn, cfg)
+          except TypeError as e:
+            # the Python-level handling of the amounts itself fails, e.g.
+            # tuple + list
+            if bad is None:
+              bad = (cfg, {'<raises>': str(e)}, {})
+            n += 1
+            continue
+          for kind, idx, coef in run_terms:
+            if abs(coef) > 1e-12:
+              got[(kind, idx)] = got.get((kind, idx), 0.0) + coef
+          want = {}
+          for kind, a in (('abs', l1), ('square', l2)):
+            if torsion:
+              for i in range(len(sizes)):
+                for j in range(i + 1, len(sizes)):
+                  c = eff(a, i, True) * eff(a, j, True)
+                  if c:
+                    want[(kind, (i, j))] = c
+            else:
+              for d in range(len(sizes)):
+                c = eff(a, d, False)
+                if c:
+                  want[(kind, (d,))] = c
+          n += 1
+          same = set(got) == set(want) and all(
+              abs(got[k] - want[k]) < 1e-9 for k in want)
+          if not same and bad is None:
+            bad = (cfg, got, want)
+    key = '%s.%s|amounts' % (LL, name)
+    if bad is None:
+      res.ok('L6', key, fn.loc(),
+             'terms and coefficients match the documented sum on all %d '
+             'configurations (amounts absent / scalar / per dimension with '
+             'zeros, units 1 and 2)' % n)
+    else:
+      cfg, got, want = bad
+      if '<raises>' in got:
+        res.violation('L6', key, fn.loc(),
+                      'for l1=%s, l2=%s, units=%d the handling of the amounts '
+                      'raises TypeError: %s' % (cfg['l1'], cfg['l2'],
+                                                cfg['units'], got['<raises>']))
+        continue
+      miss = sorted(set(want) - set(got))
+      extra = sorted(set(got) - set(want))
+      wrong = sorted(k for k in want if k in got and abs(got[k] - want[k])
+                     > 1e-9)
+      res.violation(
+          'L6', key, fn.loc(),
+          'for l1=%s, l2=%s, units=%d on lattice %s: %s%s%s' % (
+              cfg['l1'], cfg['l2'], cfg['units'], sizes,
+              'missing terms %s (a non-zero amount is skipped); ' % miss
+              if miss else '',
+              'extra terms %s (the units axis or a zero-amount dimension is '
+              'penalised); ' % [(k, round(got[k], 4)) for k in extra]
+              if extra else '',
+              'wrong coefficients %s' % [(k, round(got[k], 4), round(
+                  want[k], 4)) for k in wrong] if wrong else ''))
+
+
+def _pwl_size_guards(prog, res):
+  """L6b: the only kernels a PWL regularizer may give up on (return 0) are
+  those the property excepts: fewer than three rows for wrinkle, none for
+  Laplacian / Hessian.  A larger threshold silently drops the wrap-around
+  differences of a small cyclic kernel."""
+  for cls, allowed in (('LaplacianRegularizer', 0), ('HessianRegularizer', 0),
+                       ('WrinkleRegularizer', 3)):
+    fn = prog.function('%s.%s.__call__' % (PL, cls))
+    res.analysed(fn)
+    thr = 0
+    for st in fn.node.body:
+      if isinstance(st, ast.If) and any(isinstance(x, ast.Return)
+                                        for x in st.body):
+        for c in ast.walk(st.test):
+          if isinstance(c, ast.Compare) and len(c.ops) == 1 and \
+              norm_text(c.left).replace(' ', '') == 'x.shape[0]':
+            k = const_value(c.comparators[0], None)
+            if not isinstance(k, int):
+              raise AnalysisError('%s: size guard `%s`' % (fn.loc(c),
+                                                           norm_text(c)))
+            op = c.ops[0]
+            if isinstance(op, ast.Lt):
+              thr = max(thr, k)
+            elif isinstance(op, ast.LtE):
+              thr = max(thr, k + 1)
+            elif isinstance(op, ast.Eq):
+              thr = max(thr, k + 1)
+            else:
+              raise AnalysisError('%s: size guard `%s`' % (fn.loc(c),
+                                                           norm_text(c)))
+    res.check(thr <= allowed, 'L6', '%s.%s|size-guard' % (PL, cls), fn.loc(),
+              'returns 0 only for kernels of fewer than %d rows' % max(
+                  allowed, thr),
+              '%s returns 0 for every kernel of fewer than %d rows, but only '
+              'kernels of fewer than %d rows are excepted: a cyclic kernel of '
+              '%d rows has non-zero wrap-around differences that are '
+              'dropped' % (cls, thr, allowed, thr - 1))
